@@ -220,6 +220,58 @@ def runT (c : Config σ) (setup : Except σ σ) (script : Bytes) : Result σ :=
   | .error s => ⟨if Gen.TsRun.setupFailureFailsNow then .fail else .crash, s, some 0, [], 0⟩
   | .ok s => run c s script
 
+/-! ### specification vocabulary
+
+Plain folds over a list of lines, with no verdict logic in them: what it means that "these lines
+were executed one after the other and each met its demand".  The theorems of GIV.Props.C01 relate
+`run` to them. -/
+
+/-- One line as the loop sees it: a '#' line does nothing and is fine; any other line is `runLine`.
+`failed` is the value of `ts.failed` the commands see. -/
+def lineOut (c : Config σ) (failed : Bool) (s : σ) (l : Bytes) : LineRes σ :=
+  if isComment l then ⟨s, .ok, none⟩ else runLine c failed s l
+
+/-- The state after executing `ls` in order from `s`, provided every line ends `ok` (no earlier
+failure: `ts.failed = false` throughout); `none` as soon as one does not. -/
+def okFold (c : Config σ) : σ → List Bytes → Option σ
+  | s, [] => some s
+  | s, l :: ls =>
+    match (lineOut c false s l).out with
+    | .ok => okFold c (lineOut c false s l).state ls
+    | _ => none
+
+/-- The state and the `failed` flag after executing `ls` in order, provided every line ends `ok` or
+`fatal` (a `fatal` sets the flag): what ContinueOnError is meant to do. -/
+def contFold (c : Config σ) : Bool → σ → List Bytes → Option (σ × Bool)
+  | failed, s, [] => some (s, failed)
+  | failed, s, l :: ls =>
+    match (lineOut c failed s l).out with
+    | .ok => contFold c failed (lineOut c failed s l).state ls
+    | .fatal => contFold c true (lineOut c failed s l).state ls
+    | _ => none
+
+/-- The command invocations of `ls` under `contFold`, numbered from `n + 1`. -/
+def foldCalls (c : Config σ) : Bool → σ → Nat → List Bytes → List Call
+  | _, _, _, [] => []
+  | failed, s, n, l :: ls =>
+    callsOf (n + 1) (lineOut c failed s l) ++
+      foldCalls c (failed || (lineOut c failed s l).out == .fatal) (lineOut c failed s l).state (n + 1) ls
+
+/-- The number of the first line of `ls` that ends `fatal` (lines numbered from `n + 1`). -/
+def firstFatal (c : Config σ) : Bool → σ → Nat → List Bytes → Option Nat
+  | _, _, _, [] => none
+  | failed, s, n, l :: ls =>
+    if (lineOut c failed s l).out = .fatal then some (n + 1)
+    else firstFatal c failed (lineOut c failed s l).state (n + 1) ls
+
+/-- No command calls `T.Skip` once `ts.failed` is set. -/
+def HonoursFailed (c : Config σ) : Prop :=
+  ∀ name f s neg args, lookup c name = some f → (f true s neg args).2 ≠ .skip
+
+/-- No command panics with a value of its own. -/
+def NoCrash (c : Config σ) : Prop :=
+  ∀ name f failed s neg args, lookup c name = some f → (f failed s neg args).2 ≠ .crash
+
 /-! ### cmd/testscript -/
 
 /-- `runT.Run` per script file, then `mainerr`/`main`: a `crash` verdict is an unexpected panic
